@@ -4,10 +4,10 @@ import (
 	"fmt"
 	"hash/fnv"
 	"runtime"
-	"sync/atomic"
 	"runtime/debug"
 	"sort"
 	"strings"
+	"sync/atomic"
 	"time"
 )
 
@@ -100,27 +100,27 @@ type state struct {
 
 // Result is what one exploration covered.
 type Result struct {
-	Scenario       string           `json:"scenario"`
-	Property       string           `json:"property"`
-	States         int64            `json:"states"`
-	Transitions    int64            `json:"transitions"`
-	Evaluations    int64            `json:"evaluations"`
-	Distinct       int64            `json:"distinct_nontrivial"`
-	DepthTarget    int              `json:"depth_target"`
-	DepthCompleted int              `json:"depth_completed"`
-	PartialNext    float64          `json:"partial_next_level"`
-	Exhaustive     bool             `json:"exhaustive"`
-	StatesPerDepth []int64          `json:"states_per_depth,omitempty"`
-	Alphabet       int              `json:"alphabet"`
-	Seeds          int              `json:"seeds"`
-	Violations     []Violation      `json:"violations,omitempty"`
-	Samples        []string         `json:"samples,omitempty"`
-	Events         map[string]int64 `json:"events,omitempty"`
-	Counters       map[string]int64 `json:"counters,omitempty"`
+	Scenario       string             `json:"scenario"`
+	Property       string             `json:"property"`
+	States         int64              `json:"states"`
+	Transitions    int64              `json:"transitions"`
+	Evaluations    int64              `json:"evaluations"`
+	Distinct       int64              `json:"distinct_nontrivial"`
+	DepthTarget    int                `json:"depth_target"`
+	DepthCompleted int                `json:"depth_completed"`
+	PartialNext    float64            `json:"partial_next_level"`
+	Exhaustive     bool               `json:"exhaustive"`
+	StatesPerDepth []int64            `json:"states_per_depth,omitempty"`
+	Alphabet       int                `json:"alphabet"`
+	Seeds          int                `json:"seeds"`
+	Violations     []Violation        `json:"violations,omitempty"`
+	Samples        []string           `json:"samples,omitempty"`
+	Events         map[string]int64   `json:"events,omitempty"`
+	Counters       map[string]int64   `json:"counters,omitempty"`
 	AllowanceUse   map[string]float64 `json:"allowance_use,omitempty"`
-	Incidents      []string         `json:"incidents,omitempty"`
-	WallS          float64          `json:"wall_s"`
-	Note           string           `json:"note,omitempty"`
+	Incidents      []string           `json:"incidents,omitempty"`
+	WallS          float64            `json:"wall_s"`
+	Note           string             `json:"note,omitempty"`
 }
 
 func (r *Result) Count(name string, n int64) {
